@@ -36,6 +36,20 @@ def miri(ctx, prop, mode, features, count, shards, faults="none", gen="random", 
     return steps
 
 
+def exhaust(ctx, prop, mode, features, profile, depth, shards, variant="weak", faults="none", max_runs=3000000, timeout=900, tool="native", alloc="quarantine"):
+    """Small-scope exploration with novelty pruning (harness/src/exhaust.rs)."""
+    steps = []
+    for i in range(shards):
+        args = ["--mode", mode, "--gen", "exhaust", "--depth", str(depth), "--variant", variant, "--shard", str(i), "--nshards", str(shards),
+                "--props", prop, "--alloc", alloc, "--faults", faults, "--max-runs", str(max_runs)]
+        if tool == "miri":
+            args.append("--no-state-hash")
+        name = "%s-exhaust%d-%s-%s-%s-%s-%d" % (tool, depth, mode, variant, features.replace(",", "+") or "none", profile, i)
+        steps.append(ctx.step(name, "harness", "ccmon", args, features=features, profile=profile, tool=tool, timeout=timeout, crash_property=prop,
+                              miri_flags="-Zmiri-ignore-leaks" if tool == "miri" else ""))
+    return steps
+
+
 def standard_plan(ctx, prop, mode=None, faults="none", quick_n=40000, thorough_n=600000, miri_quick=(36, 12), miri_thorough=(640, 32),
                   need_weak=False, need_cleaners=False, need_fin=False, extra=(), extra_modes=()):
     """Random histories over the feature sets / profiles, the directed corpus, Miri, and (thorough) ASan + memcheck."""
@@ -61,6 +75,8 @@ def standard_plan(ctx, prop, mode=None, faults="none", quick_n=40000, thorough_n
                 steps += native(ctx, prop, mode, fs, "debug", 0, 1, faults=faults, gen="directed", extra=extra)
         for m in extra_modes:
             steps += native(ctx, prop, m, FULL, "debug", quick_n // 2, 2, extra=extra)
+        if ok(FULL) and not extra:
+            steps += exhaust(ctx, prop, mode, FULL, "debug", 5, 2, variant="cleaners" if need_cleaners else "weak", faults=faults)
         if miri_quick:
             steps += miri(ctx, prop, mode, FULL, miri_quick[0], miri_quick[1], faults="none", extra=extra)
     else:
@@ -73,12 +89,44 @@ def standard_plan(ctx, prop, mode=None, faults="none", quick_n=40000, thorough_n
             steps += native(ctx, prop, mode, fs, "debug", 0, 1, faults=faults, gen="directed", extra=extra)
         for m in extra_modes:
             steps += native(ctx, prop, m, FULL, "debug", thorough_n // 4, 4, extra=extra, timeout=3000)
+        if not extra:
+            if ok(FULL):
+                steps += exhaust(ctx, prop, mode, FULL, "release", 8 if faults == "none" else 5, 16, variant="cleaners" if need_cleaners else "weak", faults=faults, timeout=3000)
+                steps += exhaust(ctx, prop, mode, FULL, "debug", 6 if faults == "none" else 4, 8, variant="cleaners", faults=faults, timeout=3000)
+                steps += exhaust(ctx, prop, mode, FULL, "debug", 3, 4, variant="weak", tool="miri", alloc="track", timeout=2400)
+            if ok(NONE):
+                steps += exhaust(ctx, prop, mode, NONE, "debug", 7, 8, variant="noweak", faults=faults, timeout=3000)
+            if ok(FINONLY):
+                steps += exhaust(ctx, prop, mode, FINONLY, "release", 7, 8, variant="noweak", faults=faults, timeout=3000)
         steps += native(ctx, prop, mode, FULL, "release", max(thorough_n // 30, 2000), 6, faults=faults, tool="asan", alloc="track", extra=extra, timeout=3000)
         steps += native(ctx, prop, mode, FULL, "release", max(thorough_n // 300, 300), 4, faults=faults, tool="valgrind", alloc="track", extra=extra, timeout=3000)
         steps += native(ctx, prop, mode, FULL, "release", 0, 1, faults=faults, gen="directed", tool="valgrind", alloc="track", extra=extra, timeout=3000)
         if miri_thorough:
             steps += miri(ctx, prop, mode, FULL, miri_thorough[0], miri_thorough[1], extra=extra, timeout=2400)
             steps += miri(ctx, prop, mode, FULL, 0, 4, gen="directed", extra=extra, timeout=2400)
+    return steps
+
+
+
+def layout_steps(ctx, prop, quick):
+    """The 48-point size x alignment grid (harness/src/bin/layouts.rs): every creation / release path per layout."""
+    from driver import FULL
+    steps = []
+    def one(features, profile, tool="native", shards=1, alloc="quarantine", timeout=900):
+        out = []
+        for i in range(shards):
+            args = ["--props", prop, "--shard", str(i), "--nshards", str(shards), "--alloc", alloc]
+            out.append(ctx.step("%s-layouts-%s-%s-%d" % (tool, features.replace(",", "+") or "none", profile, i), "harness", "layouts", args, features=features,
+                                profile=profile, tool=tool, timeout=timeout, crash_property=prop, miri_flags="-Zmiri-ignore-leaks" if tool == "miri" else ""))
+        return out
+    if quick:
+        steps += one(FULL, "debug") + one(FULL, "release") + one("weak-ptrs", "debug") + one("", "debug")
+        steps += one(FULL, "debug", tool="miri", shards=8, alloc="track")
+    else:
+        for fs in (FULL, "finalization,weak-ptrs", "weak-ptrs", "auto-collect,weak-ptrs,cleaners", "finalization", ""):
+            steps += one(fs, "debug") + one(fs, "release")
+        steps += one(FULL, "release", tool="asan", alloc="track") + one(FULL, "release", tool="valgrind", alloc="track", shards=4, timeout=3000)
+        steps += one(FULL, "debug", tool="miri", shards=16, alloc="track", timeout=2400)
     return steps
 
 
